@@ -127,6 +127,9 @@ enum Op {
     /// arguments) and the two maxima of both users against the exact formula, in the current
     /// state. Changes nothing, hence reported to the engine as "state unchanged".
     Sweep,
+    /// view-only, on a rebuilt copy of the state: let a long time pass (beyond the lifetime of any
+    /// temporary entry) and repeat the sweep — balances, totals and every conversion must be the same
+    IdleSweep,
     /// `f(a, receiver, owner_or_from, operator)`; `owner` provides the assets (deposit, mint) or
     /// owns the shares (withdraw, redeem)
     Call { f: F, owner: usize, operator: usize, receiver: usize, a: i128 },
@@ -432,7 +435,7 @@ impl VaultW {
         match op {
             Op::Call { f, owner, operator, receiver, a } => self.call(i, *f, *owner, *operator, *receiver, *a).is_ok(),
             Op::Donate { a } => self.donate(i, *a),
-            Op::Sweep => false,
+            Op::Sweep | Op::IdleSweep => false,
             Op::RoundTrip { user, shape, a } => {
                 let _ = self.trip(i, *user, *shape, *a);
                 false
@@ -809,7 +812,7 @@ impl World for VaultW {
         // state-relative amounts: the maxima as the vault reports them (a failing getter is
         // reported by the sweep, which runs first)
         let mx: Vec<(i128, i128)> = (0..U).map(|u| self.maxima(i, u).unwrap_or((0, 0))).collect();
-        let mut v = vec![Op::Sweep];
+        let mut v = vec![Op::Sweep, Op::IdleSweep];
         if self.deep {
             // narrow alphabet for long interleavings
             for owner in 0..U {
@@ -913,6 +916,7 @@ impl World for VaultW {
             }
             Op::Donate { .. } => "donate".into(),
             Op::Sweep => "view-sweep".into(),
+            Op::IdleSweep => "view-sweep-after-long-idle".into(),
             Op::RoundTrip { shape, .. } => format!("roundtrip.{:?}", shape),
         }
     }
@@ -930,6 +934,24 @@ impl World for VaultW {
             Op::Call { .. } => self.step_call(i, m, op, cx),
             Op::Donate { a } => self.step_donate(i, m, op, *a),
             Op::Sweep => self.step_sweep(i, m, cx),
+            Op::IdleSweep => {
+                let copy = cx.rebuild();
+                envx::advance(&copy.e, 600_000);
+                let o = self.observe(&copy)?;
+                ensure!(
+                    o.asset == m.obs.asset && o.share == m.obs.share && o.supply == m.obs.supply,
+                    "state-survives-idle",
+                    "600000 ledgers without any call changed balances or totals: before {:?}, after {:?}",
+                    m.obs,
+                    o
+                );
+                // allowances may have expired meanwhile (C02's subject); conversions depend on totals only
+                let mut m2 = m.clone();
+                m2.obs = o;
+                self.step_sweep(&copy, &m2, cx)?;
+                cx.stats.count("view-sweeps-after-long-idle", 1);
+                Ok(false)
+            }
             Op::RoundTrip { .. } => self.step_roundtrip(i, m, op, cx),
         }
     }
